@@ -227,20 +227,22 @@ class Fork(Exception):
     def __init__(self, form): self.form = form
 
 
-class ForkOpaque(Exception):
-    pass
+class ForkSelect(Exception):
+    """partition on the (non-affine) condition of a select whose arms cannot be merged"""
+    def __init__(self, cond): self.cond = cond
 
 
 class State:
     def __init__(self, mem=None, cons=None):
         self.mem = mem or Mem(); self.cons = cons or Constraints()
+        self.forced = {}         # (function, select inst id) -> 0/1: outcome forced by a partition on a select's condition
         self.trace = []          # summarised calls / events
         self.events = []         # uninit reads, bounds violations ...
         self.nalloca = 0
 
     def clone(self):
         s = State(self.mem.clone(), self.cons.clone())
-        s.trace = list(self.trace); s.events = list(self.events); s.nalloca = self.nalloca
+        s.trace = list(self.trace); s.events = list(self.events); s.nalloca = self.nalloca; s.forced = dict(self.forced)
         return s
 
 
@@ -633,6 +635,8 @@ class Interp:
                     r = self.step(f, frame, i, st, depth)
                 except Fork as fk:
                     return self.fork(f, frame, bb, prev, k, st, depth, fk.form)
+                except ForkSelect as fs:
+                    return self.fork_select(f, frame, bb, prev, k, st, depth, fs.cond, i)
                 if r is None:
                     k += 1; continue
                 kind = r[0]
@@ -704,12 +708,62 @@ class Interp:
                 if not ok:
                     res.append([]); continue
             fr2 = {'f': f, 'regs': dict(frame['regs']), 'args': frame['args'], 'allocas': frame['allocas']}
+            if form is None:
+                self.refine_chain(f, fr2['regs'], inst.ops[0], val)
             res.append(self.run_from(f, fr2, target, bb, 0, s2, depth))
         if form is None:
             outs = res[0] + res[1]
             if len(outs) > self.budget: raise Unmodelled('partition budget exceeded')
             return outs
         return self._merge_or_keep(form, res[0], res[1], st.cons)
+
+    def refine_chain(self, f, regs, v, val):
+        """in a partition where the i1 value v is known to be `val`, make the registers it was computed from (through zext / trunc /
+        comparison with 0 / negation) concrete as well, so that later uses of the same flag do not partition again"""
+        n = 0
+        while v['k'] == 'i' and n < 8:
+            i = f.insts.get(v['id'])
+            if i is None or v['id'] not in regs: break
+            cur = regs[v['id']]
+            if not isinstance(cur, BV): break
+            if cur.concrete() is None:
+                regs[v['id']] = BV.const(val, cur.w)
+            if i.op in ('zext', 'trunc'):
+                v = i.ops[0]
+            elif i.op == 'icmp' and i.d['pred'] in ('ne', 'eq') and i.ops[1].get('k') == 'c' and i.ops[1]['v'] == 0:
+                src = regs.get(i.ops[0]['id']) if i.ops[0]['k'] == 'i' else None
+                if not (isinstance(src, BV) and all(x == 0 for x in src.bits[1:])): break      # only 0/1-valued sources
+                if i.d['pred'] == 'eq': val = 1 - val
+                v = i.ops[0]
+            elif i.op == 'xor' and i.ops[1].get('k') == 'c' and i.ops[1]['v'] == 1 and i.d['bits'] == 1:
+                val = 1 - val; v = i.ops[0]
+            else:
+                break
+            n += 1
+
+    def fork_select(self, f, frame, bb, prev, k, st, depth, cond, inst):
+        """re-execute the select at position k with its condition forced to 0 and to 1, refining the state like a branch would"""
+        self.nforks += 1
+        outs = []
+        info = cond.zero_iff if cond.zero_iff and cond.zero_iff[0] == 'allzero' else None
+        for val in (0, 1):
+            s2 = st.clone(); ok = True
+            if info is not None:
+                _, bits, negate = info
+                if (val == 1) == (not negate):
+                    for b in bits:
+                        if is_form(b) or is_const(b):
+                            if not s2.cons.add(b, 0): ok = False
+                s2.cons.opaque.append(('%s:select-%s' % (inst.loc, 'allzero' if (val == 1) == (not negate) else 'not-allzero'), [self.V.show(b) for b in bits][:12]))
+            else:
+                s2.cons.opaque.append(('%s:select-%s' % (inst.loc, 'true' if val else 'false'), None))
+            if not ok: continue
+            s2.forced[(f.name, inst.id)] = val
+            fr2 = {'f': f, 'regs': dict(frame['regs']), 'args': frame['args'], 'allocas': frame['allocas']}
+            self.refine_chain(f, fr2['regs'], inst.ops[0], val)
+            outs += self.run_from(f, fr2, bb, prev, k, s2, depth)
+            if len(outs) > self.budget: raise Unmodelled('partition budget exceeded')
+        return outs
 
     # exact affine merge of two single outcomes split on `form`
     def merge_bit(self, form, r0, r1):
@@ -812,7 +866,11 @@ class Interp:
             a = V(0)
             if isinstance(a, Ptr): regs[i.id] = a; return None
             w = i.d['bits']
-            if op == 'trunc': r = BV(a.bits[:w])
+            if op == 'trunc':
+                r = BV(a.bits[:w])
+                if a.zero_iff is not None and a.zero_iff[0] == 'cond' and all(x == 0 for x in a.bits[1:]):
+                    # a boolean that was widened (bool stored in a byte) and is narrowed again: same condition
+                    r.zero_iff = a.zero_iff[1] if w == 1 else a.zero_iff
             elif op == 'zext': r = BV(a.bits + [0] * (w - a.w)); r.zero_iff = a.zero_iff if a.zero_iff else ('bits', a.bits)
             else: r = BV(a.bits + [a.bits[-1]] * (w - a.w))
             if op == 'zext' and a.w == 1 and a.zero_iff is not None and a.zero_iff[0] == 'allzero':
@@ -839,6 +897,9 @@ class Interp:
         elif op == 'select':
             c = V(0); a = V(1); b = V(2)
             cb = c.bits[0]
+            fk = (f.name, i.id)
+            if fk in st.forced:
+                cb = st.forced.pop(fk)
             if cb == 1: regs[i.id] = a
             elif cb == 0: regs[i.id] = b
             elif isinstance(a, BV) and isinstance(b, BV) and a.w == 1 and a.concrete() is not None and b.concrete() is not None and a.concrete() != b.concrete():
@@ -861,11 +922,10 @@ class Interp:
                 if m is None: raise Fork(cb)
                 regs[i.id] = m
             else:
-                if isinstance(a, BV) and isinstance(b, BV):
-                    dd = deps(cb)
-                    regs[i.id] = BV([x if x == y and is_const(x) else T(dd | deps(x) | deps(y)) for x, y in zip(a.bits, b.bits)])
+                if (isinstance(a, BV) and isinstance(b, BV) and a.bits == b.bits) or (not isinstance(a, BV) and a == b):
+                    regs[i.id] = a
                 else:
-                    raise Unmodelled('select of pointers on unknown condition at %s' % i.loc)
+                    raise ForkSelect(c)          # partition on the condition, like a branch
         elif op == 'br':
             if len(i.ops) == 1:
                 return ('jump', f.succs[i.bb][0])
